@@ -373,6 +373,10 @@ class Soil:
 
         self.profile.Layer = self.profile.Layer.astype(int)
 
+        # number of layers actually present in the profile (a layer that lies
+        # entirely below the compartments given by dz holds no compartment)
+        self.nLayer = len(self.profile.Layer.unique())
+
     def add_capillary_rise_params(
         self,
     ):
